@@ -337,3 +337,78 @@ def free_vars(t, acc=None):
         elif x.op != "const":
             stack.extend(x.args)
     return acc
+
+
+# ---- uninterpreted functions (summaries): `uf("bad", t, s)` prints as (uf_bad t s); with constant
+# arguments and a registered implementation it folds to the implementation's value.
+UF_IMPL = {}
+
+
+UF_PARTIAL = {}  # name -> f(*args) -> exact term or None (used when enough operands are constants)
+
+
+def uf(name, *args):
+    args = tuple(lift(a) for a in args)
+    if name in UF_IMPL and all(a.is_const for a in args):
+        return I(UF_IMPL[name](*[a.val for a in args]))
+    if name in UF_PARTIAL:
+        r = UF_PARTIAL[name](*args)
+        if r is not None:
+            return r
+    return T("uf_" + name, args, "I")
+
+
+def const_tree(t, limit=5000):
+    """If t is an ite-tree with constant leaves, possibly under +,-,* with constants: the tree as nested
+    ('ite', cond, a, b) / int, else None. Used to keep products of table-valued terms linear."""
+    memo = {}
+
+    def go(x):
+        k = id(x)
+        if k in memo:
+            return memo[k]
+        r = None
+        if x.op == "const" and x.sort == "I":
+            r = x.val
+        elif x.op == "ite":
+            a, b = go(x.args[1]), go(x.args[2])
+            if a is not None and b is not None:
+                r = ("ite", x.args[0], a, b)
+        elif x.op in ("+", "-", "*") and len(x.args) == 2:
+            a, b = go(x.args[0]), go(x.args[1])
+            if a is not None and b is not None and (isinstance(a, int) or isinstance(b, int)):
+                f = {"+": lambda u, v: u + v, "-": lambda u, v: u - v, "*": lambda u, v: u * v}[x.op]
+                r = map_tree(b, lambda v: f(a, v)) if isinstance(a, int) else map_tree(a, lambda u: f(u, b))
+        memo[k] = r
+        return r
+    return go(t)
+
+
+def map_tree(tr, f):
+    if isinstance(tr, int):
+        return f(tr)
+    return ("ite", tr[1], map_tree(tr[2], f), map_tree(tr[3], f))
+
+
+def tree_term(tr):
+    if isinstance(tr, int):
+        return I(tr)
+    return ite(tr[1], tree_term(tr[2]), tree_term(tr[3]))
+
+
+def table(x, lo, hi, f):
+    """f(x) for an integer x known to lie in [lo, hi], as a balanced ite tree over x with constant leaves
+    (adjacent equal values share a leaf)."""
+    vals = [f(v) for v in range(lo, hi + 1)]
+    # run-length: breakpoints where the value changes
+    runs = []
+    for i, v in enumerate(vals):
+        if not runs or runs[-1][1] != v:
+            runs.append((lo + i, v))
+
+    def build(i, j):  # runs[i:j]
+        if j - i == 1:
+            return I(runs[i][1])
+        m = (i + j) // 2
+        return ite(lt(x, I(runs[m][0])), build(i, m), build(m, j))
+    return build(0, len(runs))
